@@ -438,7 +438,7 @@ static int do_gen(long nrandom, const char* cases, const char* stats) {
   for (int nd = 1; nd <= 3; nd++) for (int a = 0; a < 8; a++) for (int v = 0; v < NVAR[a]; v++) for (int rep = 0; rep < 2; rep++) {
     Base b = base_case(r, nd);
     bool valid = mutate(b.c, a, v, r);
-    emit(b.c, b.wellposed && valid && !(a == 4 && v == 8), std::string(ARGN[a]) + std::to_string(v));
+    emit(b.c, b.wellposed && valid && !(a == 4 && (v == 8 || v == 10)), std::string(ARGN[a]) + std::to_string(v));
     dist[std::string("single:") + ARGN[a]]++;
   }
   // 3. random points of the cross product: every argument independently valid / one of its invalid variants
@@ -448,7 +448,7 @@ static int do_gen(long nrandom, const char* cases, const char* stats) {
     for (int a = 0; a < 8; a++) if (r.coin(2, 9)) {
       int v = r.below(NVAR[a]);
       bool valid = mutate(b.c, a, v, r);
-      wp = wp && valid && !(a == 4 && v == 8);
+      wp = wp && valid && !(a == 4 && (v == 8 || v == 10));
       tag += (tag.empty() ? "" : "+") + std::string(ARGN[a]) + std::to_string(v); nm++;
     }
     if (tag.empty()) tag = "base";
